@@ -1306,7 +1306,10 @@ func TestVerif_C32(t *testing.T) {
 	rec := vh.NewRecorder("C32", "diff_and_patch", "exploration", c32Rule,
 		"pairs in which a table's primary-key column set differs between the two commits (a table re-created with another key) are skipped for that table: dolt documents that it renders no row diff / data patch across a key change; the generator makes the key a function of the table name so this is rare",
 		"a row present at both commits whose only difference lies in dropped columns or in a storage rewrite caused by a schema change may or may not be reported as modified (its values are checked when it is)",
-		"dolt_diff_<t> is compared only for parent/child pairs on which the table has its current schema (dolt issue 11140 documents that the table assumes an unchanged schema)",
+		"dolt_diff_<t> is compared only for parent/child pairs on which the table has its current schema (dolt issue 11140 documents that the table assumes an unchanged schema), walking back from HEAD until the table is absent or may have arrived by a rename",
+		"the patch round trip is skipped for pairs across a narrowing MODIFY COLUMN (BIGINT->INT, VARCHAR(60)->VARCHAR(40)): schema statements precede data statements by design, so `from` rows that `to` deleted may not fit; the generator never puts two indexes on the same column (dolt matches indexes by column list)",
+		"a table that exists on one side only may be one half of a rename: dolt detects renames by shared column tags (the choice among several candidates follows Go map order), so for such names the row diff is accepted against any table that exists only on the other side, and is unspecified (not compared) when that partner has another primary key",
+		"while a finding C32-* is listed open in known_findings.json exactly its pair shape is left out of the patch round trip (classes pairs_excluded:<id>, excluded_known); its pinned sub-test reports KNOWN-FINDING while it reproduces",
 	)
 	defer rec.Write(t)
 	c32Run(t, rec, "pairs", 130, 220, hConfig{Types: hAllTypes, TablePool: []string{"t0", "t1", "t2"}, ColPool: []string{"c0", "c1", "c2", "c3", "c4"},
